@@ -37,6 +37,8 @@ class Run(object):
     def __init__(self, K, T, C0, script, fallback=True, max_steps=10000, timed=None, src_async=False):
         self.K, self.T, self.C0 = K, T, C0
         self.script = [list(e) for e in script]
+        self.script0 = [list(e) for e in script]
+        self.timed0 = dict(timed or {})
         self.fallback = fallback
         self.ev = []
         self.pending = {}       # (i, j) -> future
@@ -297,6 +299,20 @@ class Run(object):
     def enabled_now(self):
         """For stateless exploration: environment events enabled at the current quiescent point."""
         return [['body', i, j] for (i, j) in self.pending_order]
+
+
+def confirm_livelock(r):
+    """A CPU-time watchdog can be tripped by a garbage-collection pause on a loaded machine.  The executions are
+    deterministic, so a verdict `livelock` is only kept if the same schedule does it again with a generous limit."""
+    if r.outcome != 'livelock':
+        return r
+    if r.chooser is not None:
+        again = Run(r.K, r.T, r.C0, r.fired, fallback=False, src_async=r.src_async)
+    else:
+        again = Run(r.K, r.T, r.C0, r.script0, fallback=r.fallback, timed=r.timed0, src_async=r.src_async)
+    again.watchdog_s = 20.0
+    again.execute()
+    return again
 
 
 def run_script(K, T, C0, script, fallback=True, timed=None):
